@@ -52,7 +52,11 @@ func (c *compiler) compileChange(achange *parse.Change) *Change {
 
 	ldots := mc.dots
 	rdots := rc.dots
-	connectDots(c.fset, ldots, rdots, rc.dotAssoc)
+	if err := connectDots(c.fset, ldots, rdots, rc.dotAssoc); err != nil {
+		// Without its partner a "..." of the "+" section would
+		// silently stand for nothing.
+		c.errors = append(c.errors, err)
+	}
 
 	return &Change{
 		Name:     achange.Name, // TODO(abg): validate name
@@ -120,7 +124,13 @@ func connectDots(fset *token.FileSet, lhs, rhs []token.Pos, conns map[token.Pos]
 		})
 
 		if i == len(lhs) {
-			return fmt.Errorf(`%v: "..." in "+" section does not have an associated "..." in "-" section`, rpos)
+			if len(lhs) == 0 {
+				return fmt.Errorf(`%v: "..." in "+" section does not have an associated "..." in "-" section`, rpos)
+			}
+			// No "..." of the "-" section stands in front of this one:
+			// the "+" line was written above the "-" line it replaces.
+			// Take the first "..." that follows.
+			i = len(lhs) - 1
 		}
 
 		if other, conflict := conns[r]; conflict {
